@@ -87,8 +87,14 @@ fn canon(t: &Trailers) -> Trailers {
         for (k, v) in t {
             if k.to_ascii_lowercase() == n {
                 // HTTP/1 OWS around the value is not part of it
-                let s = String::from_utf8_lossy(v).trim_matches(|c| c == ' ' || c == '\t').as_bytes().to_vec();
-                out.push((n.clone(), s));
+                let mut s: &[u8] = v;
+                while let [b' ' | b'\t', r @ ..] = s {
+                    s = r;
+                }
+                while let [r @ .., b' ' | b'\t'] = s {
+                    s = r;
+                }
+                out.push((n.clone(), s.to_vec()));
             }
         }
     }
@@ -210,6 +216,8 @@ fn trailer_menu() -> Vec<Trailers> {
         t(&[("grpc-status", "0"), ("x-r", "a"), ("x-r", "b")]),
         t(&[("grpc-status", "0"), ("x-empty", "")]),
         t(&[("grpc-status", "3"), ("grpc-message", "a:b:c"), ("x-url", "http://h:80/p")]),
+        // an ASCII-keyed value holding opaque (obs-text, not UTF-8) bytes
+        vec![("grpc-status".to_string(), b"10".to_vec()), ("x-opaque".to_string(), vec![b'c', b'a', b'f', 0xe9, b' ', 0xfa, 0xfb])],
     ]
 }
 
@@ -297,7 +305,7 @@ pub fn property(tier: Tier) -> Property {
     let a = Section::new(
         "client-body",
         Config { max_bound: tier.q(2, 3), hang_secs: 20, ..Default::default() },
-        "cases: grpc-web response bodies built by the independent encoder: 0..2 message frames (flags 0/1, payloads 0..3 bytes) + one 0x80 trailers frame over a trailer-map menu (values with ':' and spaces, repeated names, empty values; 'k:v' and 'k: v' spellings), plus truncation at every byte and an invalid flag byte at every frame start; environment: every chunking (all compositions for bodies <= 21/24 bytes, otherwise <= bound cuts/Pending deviations) plus byte-by-byte drip through GrpcWebClientService over a scripted inner service; oracle: DATA concatenates to exactly the message-frame bytes, then exactly one trailers frame equal as a multimap to what was sent, then None; truncated inside a frame / bad flag => an error and never a clean end; no busy loop. Non-trivial = body delivered in more than one chunk, truncated or corrupted.",
+        "cases: grpc-web response bodies built by the independent encoder: 0..2 message frames (flags 0/1, payloads 0..3 bytes) + one 0x80 trailers frame over a trailer-map menu (values with ':' and spaces, repeated names, empty values, opaque non-UTF-8 bytes; 'k:v' and 'k: v' spellings), plus truncation at every byte and an invalid flag byte at every frame start; environment: every chunking (all compositions for bodies <= 21/24 bytes, otherwise <= bound cuts/Pending deviations) plus byte-by-byte drip through GrpcWebClientService over a scripted inner service; oracle: DATA concatenates to exactly the message-frame bytes, then exactly one trailers frame equal as a multimap to what was sent, then None; truncated inside a frame / bad flag => an error and never a clean end; no busy loop. Non-trivial = body delivered in more than one chunk, truncated or corrupted.",
         cases(tier),
         |c: &Case| format!("msgs={:?} trailers={:?} space={} truncate={:?} bad_flag={:?} free={} drip={}", c.msgs, show(&c.trailers), c.space, c.truncate, c.bad_flag, c.free, c.drip),
         body,
